@@ -518,6 +518,11 @@ def gen_stack(rng, force=None):
             # the paths handed over are spelt like the stack is (same) or the other way (link / resolved name)
             r["spell_dir"] = rng.choice(["same", "same", "same", "other"])
             r["spell_tab"] = rng.choice(["same", "same", "same", "other"])
+            if r["table"] == "absdb" and r["spell_tab"] == "other":
+                # a table file inside the database directory that is not spelt with the database's own name is
+                # not recognised as interned by canonicalizePaths; Eups.declare never hands it over without a ups
+                # directory (it passes the interned form), so neither does this generator
+                r["upsnone"] = False
     if rng.random() < 0.06:
         # a version file that already holds a block written by other means (older eups, hand edit,
         # VersionFile API) for a flavor that is not redeclared
